@@ -144,6 +144,11 @@ def regress_scenarios(full):
     # C17 / C16: a handler whose return frames are ephemeral fails: its `.unregistered` is an ordinary stored frame (the
     # return TTL is for return frames), so the handler does not come back with the next start
     add([R("h1", 0, "h_eph_fail"), T(0), T(0, "t.fail"), RS("kill"), T(0), T(0, "t.y"), RS("exit"), T(0)])
+    # (not in the random pool: a handler that reacts to every frame is also shown ephemeral frames, and the stream
+    # cannot name such a trigger)
+    # C15 / C06: an explicit append with an ephemeral TTL is a handler output like any other: stamped, in the handler's
+    # context, part of the invocation's group (seen through the server-side follower, it is never in the stream)
+    add([R("h1", 1, "h_eph_app"), T(1), T(1, "t.y"), T(0), R("h2", 0, "h_eph_app"), T(0), U("h1", 1), T(1)])
     # C15: appends made inside the lazy stream the closure returns belong to the invocation that returned it
     add([R("h1", 0, "h_lazy"), T(0), T(0, "t.y"), T(1), U("h1", 0), T(0)])
     # C06: the same script text defined / registered in two contexts (and under two names): what its `.cat` / `.head` see is
